@@ -18,6 +18,9 @@ package main
 import (
 	"bytes"
 	"fmt"
+	"os"
+	osexec "os/exec"
+	"path/filepath"
 	"regexp"
 	"slices"
 	"strconv"
@@ -197,6 +200,9 @@ func exec(in string) (out string) {
 		case "g":
 			return encPatches(mdiff.ReadGitPatch(strings.NewReader(text)))
 		}
+	case "V", "W": // validation of the reference appliers against GNU diff / GNU patch: the
+		// outside tool's answer is part of the input (an oracle), nothing of mdiff runs here
+		return "ok"
 	case "G":
 		k := atoi(f[1])
 		var b strings.Builder
@@ -387,6 +393,68 @@ var handTexts = []string{
 	"diff a\n--- a\n+++ b\nBinary files differ\n", "--- a\n+++ b\ndiff a\n--- c\n+++ d\n@@ -1 +1 @@\n+x\n",
 }
 
+func text(ls []string) string {
+	if len(ls) == 0 {
+		return ""
+	}
+	return strings.Join(ls, "\n") + "\n"
+}
+
+// gnuValidation (thorough tier, when /usr/bin/diff and /usr/bin/patch exist) records, for every
+// pair of tiny texts, GNU diff's own output in seven modes (V lines: the reference appliers must
+// turn Left into Right with it) and what GNU patch makes of mdiff's three renderings (W lines:
+// whenever the strict reference applier accepts a rendering, patch must produce the same file).
+// A disagreement is a fault of the reference appliers (the spec), never of mdiff.
+func gnuValidation(g *tr.G) {
+	diffBin, err1 := osexec.LookPath("diff")
+	patchBin, err2 := osexec.LookPath("patch")
+	if err1 != nil || err2 != nil {
+		return
+	}
+	dir, err := os.MkdirTemp("", "c14gnu")
+	if err != nil {
+		return
+	}
+	defer os.RemoveAll(dir)
+	lf, rf, pf, of := filepath.Join(dir, "l"), filepath.Join(dir, "r"), filepath.Join(dir, "p"), filepath.Join(dir, "o")
+	modes := [][]string{{"n"}, {"u", "-U0"}, {"u", "-U1"}, {"u", "-U3"}, {"c", "-C0"}, {"c", "-C1"}, {"c", "-C3"}}
+	gen([]string{"a", "b"}, 4, func(l []string) {
+		gen([]string{"a", "b"}, 3, func(r []string) {
+			if slices.Equal(l, r) {
+				return
+			}
+			os.WriteFile(lf, []byte(text(l)), 0o644)
+			os.WriteFile(rf, []byte(text(r)), 0o644)
+			for _, m := range modes {
+				out, _ := osexec.Command(diffBin, append(slices.Clone(m[1:]), lf, rf)...).Output()
+				// drop the file header lines of -U/-C output (they carry temp names and times)
+				lines := strings.SplitAfter(string(out), "\n")
+				for len(lines) > 0 && (strings.HasPrefix(lines[0], "--- "+dir) || strings.HasPrefix(lines[0], "+++ "+dir) || strings.HasPrefix(lines[0], "*** "+dir)) {
+					lines = lines[1:]
+				}
+				g.Emit("V "+m[0]+" "+tr.HexList(l)+" "+tr.HexList(r)+" "+tr.Hex(strings.Join(lines, "")), true, "gnu-diff")
+			}
+			for _, ctx := range []int{0, 1, 3} {
+				cs := chunksOf(l, r, ctx)
+				res := make([]string, 3)
+				for i, f := range []mdiff.FormatFunc{mdiff.Normal, mdiff.Unified, mdiff.Context} {
+					os.WriteFile(pf, []byte(format(f, cs, nil)), 0o644)
+					os.Remove(of)
+					flag := []string{"-n", "-u", "-c"}[i]
+					err := osexec.Command(patchBin, flag, "-s", "-f", "-F0", "-o", of, "-r", "-", lf, pf).Run()
+					got, rerr := os.ReadFile(of)
+					if err != nil || rerr != nil {
+						res[i] = "x"
+					} else {
+						res[i] = tr.Hex(string(got))
+					}
+				}
+				g.Emit("W "+tr.HexList(l)+" "+tr.HexList(r)+" "+encChunks(cs)+" "+strings.Join(res, " "), true, "gnu-patch")
+			}
+		})
+	})
+}
+
 func main() {
 	tr.Main("C14: every pair of texts over 3 symbols to length 3 (quick) / 4 (thorough) at contexts 0, 1, 3, each diff with and without a file header; random texts of hostile lines (empty, starting with - + < > @ space --- diff, looking like hunk headers and change commands); long texts with line numbers of 2-4 digits; synthetic chunk lists (negative and inconsistent ranges, empty edits) for the formatter/reader correspondence; rendered diffs damaged in one place and hand-written texts for the readers; git-style wrappers around 1-3 renderings. For every diff the three renderings, Read/ReadUnified of them and the re-formatted patches are recorded. A case is non-trivial when the diff has at least one chunk (readers: always).",
 		exec, func(g *tr.G) {
@@ -499,6 +567,9 @@ func main() {
 					continue
 				}
 				g.Emit("T "+kind+" "+tr.Hex(text), true, "damaged")
+			}
+			if g.Thorough() {
+				gnuValidation(g)
 			}
 			// git wrappers
 			junk0 := []string{"diff --git a/f b/f", "index 83a4f1..9bc2d0 100644", "new file mode 100644", "similarity index 90%", "deleted file mode 100644", "old mode 100644"}
